@@ -82,11 +82,12 @@ Section PushDistinct.
 
   Lemma eval_keeps_distinct c s l k : pushd_owns k c -> stack_distinct k (x mx s) -> stack_distinct k (x mx (fst (eval q blanks AND c s l))).
   Proof.
-    intros Ho H. destruct c as [b|a|b a|g]; cbn [eval].
+    intros Ho H. destruct c as [b|a|b a|g|na0 i0 k0 r0]; cbn [eval].
     - exact H.
     - cbn [fst]. apply do_action_keeps_distinct; [destruct a; try exact I; exact Ho|exact H].
     - destruct (beval q blanks s l b); [|exact H]. cbn [fst]. apply do_action_keeps_distinct; [destruct a; try exact I; exact Ho|exact H].
     - unfold stack_distinct in *. rewrite do_agg_stacks. exact H.
+    - exact H.
   Qed.
 
   Lemma core_m_keeps_distinct cs e s l k : Forall (pushd_owns k) cs ->
